@@ -275,6 +275,16 @@ func extractC12(o *out) {
 		text string
 	}
 	var sites []site
+	var discharged []string
+	constCache := map[*ast.File]env{}
+	fileConstsOf := func(f *ast.File) env {
+		if en, ok := constCache[f]; ok {
+			return en
+		}
+		en := fileConsts(f, nil)
+		constCache[f] = en
+		return en
+	}
 	for _, rel := range siteFiles {
 		f := parse(rel)
 		for _, d := range f.Decls {
@@ -296,10 +306,18 @@ func extractC12(o *out) {
 				continue
 			}
 			count := map[string]int{}
+			// index / slice sites whose dominating length guards imply that they stay within bounds (x_c12_bounds.go) are
+			// not part of the inventory, wherever they live and however the guard is spelled; they still count as
+			// occurrences so that the fingerprints of the remaining sites are the ones they always had
+			safe := bcDischarge(fd, fileConstsOf(f))
 			add := func(kind string, n ast.Node) {
 				key := fmt.Sprintf("%s|%s|%s|%s", filepath.Base(rel), fname, kind, shapeText(n))
 				count[key]++
 				full := fmt.Sprintf("%s#%d", key, count[key])
+				if why, ok := safe[n]; ok {
+					discharged = append(discharged, fmt.Sprintf("%s   %s   [%s]", full, nodeText(n), why))
+					return
+				}
 				h := fnv.New32a()
 				h.Write([]byte(full))
 				sites = append(sites, site{h.Sum32(), full + "   " + nodeText(n)})
@@ -353,6 +371,10 @@ func extractC12(o *out) {
 		fmt.Fprintf(b, "  %d%s  -- %s\n", s.fp, sep, s.text)
 	}
 	fmt.Fprintf(b, "]\n")
+	fmt.Fprintf(b, "-- %d index / slice sites are left out of `panicSites` because the length guards that dominate them imply that they stay\n-- within bounds (go/extract/x_c12_bounds.go); each with the discharged requirements:\n", len(discharged))
+	for _, d := range discharged {
+		fmt.Fprintf(b, "-- within bounds: %s\n", d)
+	}
 
 	// the session-bound handlers refuse before they act: the statement after `…, err := s.validateAndGetUser(…)` is
 	// `if err != nil { resp.Err = err } else …` — whatever the request carries (close flag, options, payload), nothing
